@@ -40,6 +40,7 @@ type Violation struct {
 	Sched   []string
 	PC      []string
 	Harness string
+	Obs     []string
 }
 
 type Bounds struct {
@@ -328,6 +329,10 @@ func (r *Run) violateWith(g *G, label string, model map[string]string) {
 	v.Inputs = r.decodeInputs(model)
 	if g != nil {
 		v.Msg = g.where()
+	}
+	v.Obs = append([]string{}, r.obs...)
+	if bs := r.blockedSummary(); bs != "" {
+		v.Obs = append(v.Obs, "blocked: "+bs)
 	}
 	r.violation = v
 	r.fail(OutViolation, label)
